@@ -36,6 +36,22 @@ def fresh_U(base='u'):
 NONE_U = z3.Const('None!U', U)   # the opaque encoding of None inside U-sorted containers
 
 
+# Python strings inside opaque (U-sorted) containers: strU(i) for the i-th distinct string met; strU is injective and
+# no string is None (axioms added to every query that mentions strU).
+STR_IDS = {}
+strU = z3.Function('strU', z3.IntSort(), U)
+strid = z3.Function('strid', U, z3.IntSort())
+
+
+def str_const(s):
+    return strU(z3.IntVal(STR_IDS.setdefault(s, len(STR_IDS))))
+
+
+def str_axioms():
+    i = z3.Int('i!str')
+    return [z3.ForAll([i], strid(strU(i)) == i), strid(NONE_U) == -1]
+
+
 class Opq:
     """Opaque value: element of the uninterpreted universe U."""
     __slots__ = ('t',)
@@ -203,6 +219,8 @@ def to_z3(v, sort=None):
         return v.t
     if v is None and sort == U:
         return NONE_U
+    if isinstance(v, str) and sort == U:
+        return str_const(v)
     raise TypeError(f'cannot convert {v!r} to z3')
 
 
